@@ -47,7 +47,7 @@ pub fn fri_commit_rounds(
         configs@.len() >= n_layers@,                  // [C18:fri-rounds-one-config-per-inner-layer]
         unsent_commitments@.len() >= n_layers@,       // [C18:fri-rounds-one-root-per-inner-layer]
     ensures
-        r.0@.len() == n_layers@ && r.1@.len() == n_layers@, // [C01,C02,C08:fri-rounds-one-commitment-and-one-eval-point-per-inner-layer]
+        r.0@.len() == n_layers@ && r.1@.len() == n_layers@, // [C01,C02,C08,C18:fri-rounds-one-commitment-and-one-eval-point-per-inner-layer]
         forall|i: int| 0 <= i < n_layers@ ==> (#[trigger] r.0@[i]).config == configs@[i] && r.0@[i].vector_commitment.config == configs@[i].vector
             && r.0@[i].vector_commitment.commitment_hash == unsent_commitments@[i], // [C01,C02,C08:fri-round-i-commits-root-i-under-config-i]
         forall|i: int| 0 <= i < n_layers@ ==> (#[trigger] r.1@[i])@ == round_eval_point(old(transcript).digest@, fv(unsent_commitments@), i as nat), // [C01,C02,C08:fri-eval-point-i-squeezed-right-after-root-i]
@@ -140,13 +140,13 @@ pub fn fri_commit(
     requires
         fri_commit_pre(&unsent_commitment, &config), // [C18:fri-commit-shape-validated-before-call]
     ensures
-        r.config == config,                                                                 // [C01,C02,C08:fri-commitment-keeps-config]
-        r.inner_layers@.len() == config.n_layers@ - 1 && r.eval_points@.len() == config.n_layers@ - 1, // [C01,C02,C08:fri-one-commitment-and-eval-point-per-inner-layer]
+        r.config == config,                                                                 // [C01,C02,C08,C18:fri-commitment-keeps-config]
+        r.inner_layers@.len() == config.n_layers@ - 1 && r.eval_points@.len() == config.n_layers@ - 1, // [C01,C02,C08,C18:fri-one-commitment-and-eval-point-per-inner-layer]
         forall|i: int| 0 <= i < config.n_layers@ - 1 ==> (#[trigger] r.inner_layers@[i]).config == config.inner_layers@[i]
             && r.inner_layers@[i].vector_commitment.config == config.inner_layers@[i].vector
             && r.inner_layers@[i].vector_commitment.commitment_hash == unsent_commitment.inner_layers@[i], // [C01,C02,C08:fri-inner-layer-i-commits-root-i]
         forall|i: int| 0 <= i < config.n_layers@ - 1 ==> (#[trigger] r.eval_points@[i])@ == round_eval_point(old(transcript).digest@, fv(unsent_commitment.inner_layers@), i as nat), // [C01,C02,C08:fri-eval-points-follow-their-roots]
-        r.last_layer_coefficients == unsent_commitment.last_layer_coefficients,             // [C01,C02,C08:fri-commitment-keeps-last-layer-coefficients]
+        r.last_layer_coefficients == unsent_commitment.last_layer_coefficients,             // [C01,C02,C08,C18:fri-commitment-keeps-last-layer-coefficients]
         final(transcript).digest@ == ts_absorb_vec(rounds_digest(old(transcript).digest@, fv(unsent_commitment.inner_layers@), (config.n_layers@ - 1) as nat), felts_view(unsent_commitment.last_layer_coefficients@)), // [C01,C02,C08:fri-last-layer-coefficients-absorbed-after-all-rounds]
         final(transcript).counter@ == 0,
 {
